@@ -145,6 +145,7 @@ class ContinuousMountainCar(
         x, v = y
         v = jnp.clip(v, -self.max_speed, self.max_speed)
         x = jnp.clip(x, self.min_position, self.max_position)
+        v = v * ((x != self.min_position) | (v > 0.0))
         return jnp.array([x, v])
 
     def observation(
